@@ -72,14 +72,14 @@ pub type SimpleStore = SimpleGarnishData<NoCustom, Host>;
 fn simple_op_handler(data: &mut SimpleStore, op: Instruction, l: (GarnishDataType, usize), r: (GarnishDataType, usize)) -> Result<bool, DataError> {
     let mode = data.auxiliary_data().defer_mode;
     let (entry, res) = defer_impl(data, mode, op, l, r);
-    data.auxiliary_data_mut().log.push(entry);
+    if data.auxiliary_data().log.len() < 400 { data.auxiliary_data_mut().log.push(entry); }
     res
 }
 
 fn simple_resolver(data: &mut SimpleStore, sym: u64) -> Result<bool, DataError> {
     let table = data.auxiliary_data().resolve.clone();
     let (entry, res) = resolve_impl(data, &table, sym);
-    data.auxiliary_data_mut().log.push(entry);
+    if data.auxiliary_data().log.len() < 400 { data.auxiliary_data_mut().log.push(entry); }
     res
 }
 
@@ -132,7 +132,7 @@ impl BasicDataCompanion<()> for Host {
         }
         let table = data.companion().resolve.clone();
         let (entry, res) = resolve_impl(data, &table, symbol);
-        data.companion_mut().log.push(entry);
+        if data.companion().log.len() < 400 { data.companion_mut().log.push(entry); }
         res
     }
     fn apply(data: &mut BasicGarnishData<(), Self>, external_value: usize, input_addr: usize) -> Result<bool, DataError> {
@@ -141,7 +141,7 @@ impl BasicDataCompanion<()> for Host {
         }
         let mode = data.companion().apply_mode;
         let (entry, res) = apply_impl(data, mode, external_value, input_addr);
-        data.companion_mut().log.push(entry);
+        if data.companion().log.len() < 400 { data.companion_mut().log.push(entry); }
         res
     }
     fn defer_op(data: &mut BasicGarnishData<(), Self>, operation: Instruction, left: (GarnishDataType, usize), right: (GarnishDataType, usize)) -> Result<bool, DataError> {
@@ -150,7 +150,7 @@ impl BasicDataCompanion<()> for Host {
         }
         let mode = data.companion().defer_mode;
         let (entry, res) = defer_impl(data, mode, operation, left, right);
-        data.companion_mut().log.push(entry);
+        if data.companion().log.len() < 400 { data.companion_mut().log.push(entry); }
         res
     }
 }
